@@ -819,6 +819,9 @@ func (g *jsGen) memberChainBase(n *JSNode, depth int, allowCall bool) *JSNode {
 			if g.o.PlainKeys {
 				names = []string{"p", "q", "length", "k1"}
 			}
+			if g.inClassMethod && len(g.classPrivs) > 0 && len(g.classPrivs[len(g.classPrivs)-1]) > 0 && r.Intn(4) == 0 {
+				names = g.classPrivs[len(g.classPrivs)-1] // o.#p, this.#p: a private name of the enclosing class
+			}
 			n = &JSNode{K: "member", S: Pick(r, names), Kids: []*JSNode{n}}
 		}
 	}
@@ -868,6 +871,9 @@ func (g *jsGen) expr(depth int, min int) *JSNode {
 			n = &JSNode{K: "unary", Op: Pick(r, jsUnaryOps), Kids: []*JSNode{g.expr(depth+1, pComma)}}
 			if n.Op == "delete" {
 				n.Kids[0] = g.memberChainBase(g.ref(), depth+1, false)
+				if n.Kids[0].K == "member" && strings.HasPrefix(n.Kids[0].S, "#") {
+					n.Op = "void" // deleting a private field is an early error
+				}
 			}
 		case 12:
 			n = &JSNode{K: Pick(r, []string{"preupdate", "postupdate"}), Op: Pick(r, []string{"++", "--"}), Kids: []*JSNode{g.lhs(depth)}}
